@@ -206,6 +206,7 @@ ArithCases ==
                                     ELSE [op |-> "evaluated_output", w |-> <<"x", "y", 0, "z">>, out |-> "e",
                                           q |-> [m |-> q[1], l |-> q[2], r |-> q[3], o |-> q[4], f |-> q[5], c |-> q[6]]])])))))
 
+SSub1(x) == BSub(One, x)
 \* operand handles for the arithmetic family
 HandleArithCases ==
      Flat(Map(Vals3, LAMBDA x :
@@ -233,6 +234,27 @@ HandleArithCases ==
            [g |-> "gate_mul/same-handle", expect |-> Ok(<< BAdd(BMul(Rnd(1), BMul(x, x)), BAdd(BMul(Rnd(5), One), Rnd(6))) >>),
             ops |-> << Wt(x, "x"), [op |-> "gate_mul", w |-> <<"x", "x", 0, 1>>, out |-> "s",
                                     q |-> [m |-> Rnd(1), f |-> Rnd(5), c |-> Rnd(6)]] >>] >>))
+  \* every VALUE operand position with the constant handles 0 / 1
+  \o Flat(Map(Bits4, LAMBDA b : Flat(Map(<< <<0, Zero>>, <<1, One>> >>, LAMBDA k :
+        << [g |-> "select_one/const-value", expect |-> SelectOneRel(b, k[2]),
+            ops |-> << Wt(b, "b"), [op |-> "select_one", bit |-> "b", a |-> k[1], out |-> "s"] >>],
+           [g |-> "select_zero/const-value", expect |-> SelectZeroRel(b, k[2]),
+            ops |-> << Wt(b, "b"), [op |-> "select_zero", bit |-> "b", a |-> k[1], out |-> "s"] >>],
+           [g |-> "select/const-a", expect |-> SelectRel(b, k[2], Rnd(8)),
+            ops |-> << Wt(b, "b"), Wt(Rnd(8), "y"), [op |-> "select", bit |-> "b", a |-> k[1], b |-> "y", out |-> "s"] >>],
+           [g |-> "select/const-b", expect |-> SelectRel(b, Rnd(8), k[2]),
+            ops |-> << Wt(b, "b"), Wt(Rnd(8), "y"), [op |-> "select", bit |-> "b", a |-> "y", b |-> k[1], out |-> "s"] >>],
+           [g |-> "select/const-a-b", expect |-> SelectRel(b, k[2], SSub1(k[2])),
+            ops |-> << Wt(b, "b"), [op |-> "select", bit |-> "b", a |-> k[1], b |-> 1 - k[1], out |-> "s"] >>] >>))))
+  \o Flat(Map(<< <<0, Zero>>, <<1, One>> >>, LAMBDA k :
+        << [g |-> "gate_add/const-operands", expect |-> Ok(<< BAdd(BAdd(BMul(Rnd(2), k[2]), BMul(Rnd(3), Rnd(9))), BAdd(BMul(Rnd(5), k[2]), Rnd(6))) >>),
+            ops |-> << Wt(Rnd(9), "y"), [op |-> "gate_add", w |-> <<k[1], "y", 0, k[1]>>, out |-> "s",
+                                         q |-> [l |-> Rnd(2), r |-> Rnd(3), f |-> Rnd(5), c |-> Rnd(6)]] >>],
+           [g |-> "gate_mul/const-operands", expect |-> Ok(<< BAdd(BMul(Rnd(1), BMul(k[2], Rnd(9))), Rnd(6)) >>),
+            ops |-> << Wt(Rnd(9), "y"), [op |-> "gate_mul", w |-> <<k[1], "y", 0, 0>>, out |-> "s",
+                                         q |-> [m |-> Rnd(1), f |-> Rnd(5), c |-> Rnd(6)]] >>],
+           [g |-> "boolean-then-select_one/const-value", expect |-> SelectOneRel(One, k[2]),
+            ops |-> << Wt(One, "b"), [op |-> "boolean", a |-> "b"], [op |-> "select_one", bit |-> "b", a |-> k[1], out |-> "s"] >>] >>))
   \o << [g |-> "assert_equal/const-0-1", expect |-> Unsat, ops |-> << [op |-> "assert_equal", a |-> 0, b |-> 1] >>],
         [g |-> "boolean/const-1", expect |-> Ok(<< >>), ops |-> << [op |-> "boolean", a |-> 1] >>],
         [g |-> "boolean/const-0", expect |-> Ok(<< >>), ops |-> << [op |-> "boolean", a |-> 0] >>] >>
